@@ -291,32 +291,44 @@ def insertCheck (re : Bytes → Bytes → Bool) (k : Kind) (x : Bound) :
     | .keepX => (rest, m)
     | _ => (y :: rest, m)
 
+/-- a new `>`/`>=` bound against the stored lower bound: `SimplifyBounds` returns the tighter one,
+which is then stored (the recursion of the Go code re-enters with an empty slot) -/
+def slotLower (re : Bytes → Bytes → Bool) (n : SNode) (x : Bound) : SNode :=
+  match n.lower with
+  | some y => if simplifyBounds re n.kind x y == .keepY then n else { n with lower := some x }
+  | none => { n with lower := some x }
+
+def slotUpper (re : Bytes → Bytes → Bool) (n : SNode) (x : Bound) : SNode :=
+  match n.upper with
+  | some y => if simplifyBounds re n.kind x y == .keepY then n else { n with upper := some x }
+  | none => { n with upper := some x }
+
+def addCheck (re : Bytes → Bytes → Bool) (n : SNode) (x : Bound) : SNode :=
+  let (cs, m) := insertCheck re n.kind x n.checks
+  { n with checks := if m then cs else cs ++ [x] }
+
+/-- what happens to a bound after `updateNodeType` succeeded -/
+def placeBound (re : Bytes → Bytes → Bool) (n : SNode) (x : Bound) : SNode :=
+  match x.op with
+  | .gt | .ge => recheck re (slotLower re n x)
+  | .lt | .le => recheck re (slotUpper re n x)
+  | _ => addCheck re n x          -- returns before the re-check
+
 def insertBound (re : Bytes → Bytes → Bool) (n0 : SNode) (x : Bound) : SNode :=
   if !x.wellTyped then { n0 with err := true } else   -- BoundExpr.evaluate fails
   let (n, ok) := updateKind n0 x.kind
-  if !ok then n else
-  match x.op with
-  | .gt | .ge =>
-    let n := match n.lower with
-      | some y => if simplifyBounds re n.kind x y == .keepY then n else { n with lower := some x }
-      | none => { n with lower := some x }
-    recheck re n
-  | .lt | .le =>
-    let n := match n.upper with
-      | some y => if simplifyBounds re n.kind x y == .keepY then n else { n with upper := some x }
-      | none => { n with upper := some x }
-    recheck re n
-  | _ =>
-    let (cs, m) := insertCheck re n.kind x n.checks
-    { n with checks := if m then cs else cs ++ [x] }
+  if !ok then n else placeBound re n x
 
-def insertAtom (re : Bytes → Bytes → Bool) (n0 : SNode) (a : Atom) : SNode :=
-  let (n, ok) := updateKind n0 a.kind
-  if !ok then n else
+/-- a scalar against the stored scalar -/
+def placeAtom (re : Bytes → Bytes → Bool) (n : SNode) (a : Atom) : SNode :=
   let n := match n.scalar with
     | some y => if binOpEq a y then n else { n with err := true }
     | none => { n with scalar := some a }
   recheck re n
+
+def insertAtom (re : Bytes → Bytes → Bool) (n0 : SNode) (a : Atom) : SNode :=
+  let (n, ok) := updateKind n0 a.kind
+  if !ok then n else placeAtom re n a
 
 def insertType (re : Bytes → Bytes → Bool) (n0 : SNode) (k : Kind) : SNode :=
   let (n, ok) := updateKind n0 k
